@@ -1117,6 +1117,27 @@ func TestSettableRandom(t *testing.T) {
 			}
 		}
 	}
+	// the estimate as a listener sees it while it is being notified of an explicit set
+	for wi, wrap := range wraps {
+		st := limit.NewSettableLimit("inside", 10, core.EmptyMetricRegistryInstance)
+		var outer core.Limit = st
+		switch wrap {
+		case "traced":
+			outer = limit.NewTracedLimit(st, limit.NoopLimitLogger{})
+		case "windowed":
+			wl, err := limit.NewWindowedLimit("inside", 1e8, 1e9, 10, 0, st, core.EmptyMetricRegistryInstance)
+			if err != nil {
+				t.Fatal(err)
+			}
+			outer = wl
+		}
+		var pairs [][2]int
+		outer.NotifyOnChange(func(v int) { pairs = append(pairs, [2]int{v, outer.EstimatedLimit()}) })
+		for _, v := range []int{7, 25, 25, 0, 3} {
+			st.SetLimit(v)
+		}
+		w.write(J{"ev": "Inside", "trace": n + wi, "i": 0, "algo": "settable", "wrap": wrap, "pairs": pairs})
+	}
 	// explicit sets issued at once by free-running goroutines (one each, behind a start barrier): whatever order they take
 	// effect in, once all have returned the last value delivered to the listener is the estimate. (Holding one set inside
 	// a listener and issuing two more never reorders them - the mutex hands over in arrival order - so this is a sample of
